@@ -1020,8 +1020,15 @@ class PDFDocument:
         parser: PDFParser,
         start: int,
         xrefs: List[PDFBaseXRef],
+        visited: Optional[Set[int]] = None,
     ) -> None:
         """Reads XRefs from the given location."""
+        if visited is None:
+            visited = set()
+        if start in visited:
+            # a /Prev or /XRefStm chain that leads back to a section already read
+            return
+        visited.add(start)
         parser.seek(start)
         parser.reset()
         try:
@@ -1045,11 +1052,11 @@ class PDFDocument:
         log.debug("trailer: %r", trailer)
         if "XRefStm" in trailer:
             pos = int_value(trailer["XRefStm"])
-            self.read_xref_from(parser, pos, xrefs)
+            self.read_xref_from(parser, pos, xrefs, visited)
         if "Prev" in trailer:
             # find previous xref
             pos = int_value(trailer["Prev"])
-            self.read_xref_from(parser, pos, xrefs)
+            self.read_xref_from(parser, pos, xrefs, visited)
 
 
 class PageLabels(NumberTree):
